@@ -2,21 +2,32 @@
 //! (`scion_stack::path::manager::MultiPathManager`: callers of `path()` / `cached_path()`, the per-pair worker
 //! task, `stop_managing_paths`, idle removal, drop of the manager).
 //!
-//! A case is a *schedule*: runtime flavour (current-thread / multi-thread) + a program of harness operations
-//! executed against the REAL `MultiPathManager` with a gated mock `PathFetcher`:
+//! Two streams of cases (both are *schedules* run against the REAL `MultiPathManager` with a mock `PathFetcher`):
+//!
+//! **(a) controlled schedules** (`rt=ctl`, see `run_ctl_async`): the code carries `verif-hooks` yield points
+//! between its lock-protected regions and lock-free loads/stores (`verif_sched::yield_point`, /repo 3648621).
+//! Every task parks at every yield point (and at the fetcher); the harness releases exactly one task at a time on a
+//! current-thread runtime.  The interleaving is therefore *forced* at lock-region granularity, the sequence of
+//! model actions is *observed* (the region between the site a task left and the site it reaches next is one model
+//! action), every action must be enabled in the compiled Lean model (`drv_sched`), and after every step the model
+//! state is compared with the real one.  Steps: `S.<kind>.<key>` spawn one caller, `c<j>` / `w<i>` release caller j /
+//! worker i, `f<i>.<ok|near|empty|err>` complete the lookup of worker i, `T.<key>` stop_managing_paths, `D` drop the
+//! user's manager, `Z` let timers fire; afterwards everything is drained (lookups answered, manager dropped, all
+//! tasks released until they end).  No failure of a controlled schedule is ever forgiven.
+//!
+//! **(b) free-running schedules**: runtime flavour (current-thread / multi-thread, optionally with seeded
+//! re-scheduling at every yield point, `pert=1`) + a program of harness operations:
 //!   `S.<kind>.<key>.<n>` spawn n concurrent callers, `R.<key>.<ok|empty|err>` let the oldest pending lookup of
 //!   the pair finish (or pre-arm the next one), `T.<key>` stop_managing_paths, `D` drop the user's manager,
 //!   `I` wait out the idle period, `A` finish all pending lookups, `Y` synchronise.
-//! At every `Y` the harness waits for the real system to become quiescent, then builds a *witness schedule*
-//! of model actions (lock-region granularity: worker setOngoing / fetchDone / setErr / publishActive /
-//! clearAndNotify / … / exitNotify / storeNone, caller peek / ensure / loadActive / lockCheck / awake / reload /
-//! readErr, manager stop / drop) and replays it on the compiled Lean model (`drv_sched`): every action must be
+//! At every `Y` the harness waits for the real system to become quiescent, then *searches* a witness schedule
+//! of model actions (lock-region granularity) and replays it on the model: every action must be
 //! enabled (`ok`), and the model's observable state must equal what the real system showed – per caller
 //! (finished?, result), per pair (number of fetcher invocations = number of workers that started a lookup),
 //! fetcher dropped (= manager value gone), number of live tokio tasks (= callers + workers not yet finished).
-//! Where the real outcome depends on a race the model also allows (a caller woken by a worker that is already
-//! on its way out reads the path or the exit error), the witness is chosen by the observed result
-//! (`save`/`restore` on the driver); a result the model cannot produce at any position is a disagreement.
+//! Where the real outcome depends on a race the model also allows, the witness is chosen by the observed result
+//! (`save`/`restore` on the driver); a result the model cannot produce at any position is a disagreement.  This
+//! stream is what exercises true parallelism (the races inside synchronous code such as `ensure_managed_paths`).
 //!
 //! Spec oracle (independent of the model), applied to the real system:
 //!  * `C20:waiter-not-released`  a `path()` future still pending although no lookup of its pair is pending;
@@ -1753,6 +1764,7 @@ struct CRun<'a> {
     spawns: Vec<usize>,
     removals: Vec<usize>,
     timers: bool,
+    refetch: bool,
     sites: HashMap<String, u64>,
     compared: u64,
 }
@@ -2367,7 +2379,11 @@ impl<'a> CRun<'a> {
         for (i, w) in self.workers.iter().enumerate() {
             match &w.parked {
                 Some(Park::Go(_)) => o.push((ww, format!("w{i}"))),
-                Some(Park::Fetch(_)) => o.push((ww, format!("f{i}.{}", pick_resp(rng).s()))),
+                Some(Park::Fetch(_)) => {
+                    // refetch schedules: near-expiry answers keep the worker refetching (tickRefetch)
+                    let r = if self.refetch && rng.chance(1, 2) { Resp::Near } else { pick_resp(rng) };
+                    o.push((ww, format!("f{i}.{}", r.s())))
+                }
                 _ => {
                     if w.site == "w:loop" && !w.done {
                         in_select = true;
@@ -2436,6 +2452,7 @@ async fn run_ctl_async(s: &Sched, lean: &mut Lean) -> Outcome {
         spawns: vec![0; NKEYS],
         removals: vec![0; NKEYS],
         timers: s.idle_ms > 0 || s.refetch_ms > 0,
+        refetch: s.refetch_ms > 0,
         sites: HashMap::new(),
         compared: 0,
     };
@@ -2900,11 +2917,17 @@ fn main() {
     let mut rng = Rng::new(args.seed);
     let mut rep = Report::new(
         "C20",
-        "case = schedule (runtime flavour + program of spawn / lookup completion / stop / drop / idle operations) run \
-         against the real MultiPathManager with a gated mock fetcher; at every synchronisation point a witness schedule of \
-         model actions at lock-region granularity is replayed on the Lean model (every action must be enabled) and the \
-         observable state (per-caller result, fetcher invocations per pair, manager dropped, live tasks) is compared. \
-         Non-trivial = at least one caller finished and at least one worker was spawned; distinct by schedule text",
+        "case = schedule run against the real MultiPathManager with a mock fetcher. Two streams. (a) controlled (rt=ctl): \
+         every task parks at every verif-hooks yield point (between two lock regions / lock-free loads and stores of \
+         manager.rs and pathset.rs) and at the fetcher; the harness releases one task at a time (current-thread runtime), so \
+         the sequence of model actions is observed, not constructed; every action must be enabled in the Lean model and \
+         after every step the model state is compared with the real one (handshake state, active slot and idle flag of \
+         every path set, manager index, worker count, fetcher invocations, manager dropped, caller results, and that a \
+         caller whose Notified is complete wakes up). (b) free-running (current-thread / multi-thread, optionally with \
+         seeded re-scheduling at every yield point): program of spawn / lookup completion / stop / drop / idle operations; at \
+         every synchronisation point a witness schedule of model actions is searched and replayed on the model. \
+         Non-trivial = at least one caller finished and at least one worker was spawned; distinct by schedule text (for \
+         controlled schedules: the steps actually performed)",
     );
     let mut schedules: Vec<(String, Sched)> = vec![];
     for l in read_corpus(&args.corpus) {
@@ -2928,7 +2951,7 @@ fn main() {
     } else {
         // two streams, interleaved: controlled schedules (the harness is the scheduler, lock-region granularity,
         // current-thread) and free-running ones (current-thread / multi-thread, races by true parallelism)
-        let n = args.scale(420, 16000);
+        let n = args.scale(330, 16000);
         for k in 0..n {
             let mut r = rng.fork();
             if k % 3 != 2 {
